@@ -148,6 +148,9 @@ class Gen:
             oi = sc.lookup(o)
             for n, i in sorted(oi.cls.methods.items()):
                 cands.append(("%s.%s" % (o, n), i))
+            if getattr(oi.cls, "call", None) is not None:
+                cands.append((o, Info("fun", params=oi.cls.call)))
+                cands.append((o, Info("fun", params=oi.cls.call)))
         if not cands:
             return None
         name, fi = self.pick(cands)
@@ -162,6 +165,12 @@ class Gen:
                     out.append(self.expr(sc, depth + 1, avoid))
                 continue
             if kind == "kwvar":
+                # keywords the callee does not declare (swallowed by **kw), spelled like variables
+                if self.chance(0.6):
+                    declared = {q for (q, _, _) in params}
+                    for v in self.rng.sample(INTS, self.rng.randrange(1, 3)):
+                        if v not in declared:
+                            out.append("%s=%s" % (v, self.atom(sc, avoid)))
                 continue
             if has_default and self.chance(0.4):
                 kw = True       # later ones must be keywords
@@ -394,7 +403,7 @@ class Gen:
             text.append("*args")
             ps.append(("args", "var", False))
             sc.names["args"] = Info("tuple")
-        if self.chance(0.07):
+        if self.chance(0.15):
             text.append("**kw")
             ps.append(("kw", "kwvar", False))
             sc.names["kw"] = Info("dict")
@@ -448,6 +457,8 @@ class Gen:
                 self.emit(ind + 1, "nonlocal %s" % v)
                 glob.append(v)
         body_sc = fs
+        if "kw" in fs.names:
+            self.emit(ind + 1, "print(sorted(kw.items()))")
         # nested definitions and the first assignment of every local come first: a later binding would turn the
         # reads generated before it into reads of an unbound local
         if depth < 2 and self.chance(0.3):
@@ -509,7 +520,7 @@ class Gen:
         bi = sc.lookup(base) if base else None
         info = Info("cls", cattrs=set(bi.cattrs) if bi else set(), iattrs=set(bi.iattrs) if bi else set(),
                     methods=dict(bi.methods) if bi else {}, init=list(bi.init) if bi else [],
-                    inherited=set(bi.cattrs) if bi else set())
+                    inherited=set(bi.cattrs) if bi else set(), call=getattr(bi, "call", None) if bi else None)
         self.emit(ind, "class %s%s:" % (name, "(%s)" % base if base else self.pick(["", "", "(object)"])))
         cs = Scope("class", sc)
         n = 0
@@ -541,6 +552,11 @@ class Gen:
                 continue
             own.add(m)
             info.methods[m] = self.gen_def(cs, ind + 1, m, method_of=info)
+            n += 1
+        if self.chance(0.35):
+            # a callable instance; with __init__ as well the class has both (get_enclosing_function must take
+            # __init__ for the constructor call and __call__ for a call of the instance)
+            info.call = self.gen_def(cs, ind + 1, "__call__", method_of=info).params
             n += 1
         if n == 0:
             self.emit(ind + 1, "pass")
@@ -600,13 +616,36 @@ class Gen:
     def module(self, name, avail, is_main):
         self.lines = []
         sc = Scope("module")
-        if self.chance(0.3):
+        homonym = None
+        if not is_main and "." not in name and self.chance(0.3):
+            # the FIRST line binds a name spelled like the module: an ImportedModule's definition location is
+            # (module, 1), the same as that name's
+            homonym = name
+            if self.chance(0.6):
+                self.emit(0, "def %s(x): return x + %d" % (name, self.rng.randrange(1, 5)))
+                sc.names[name] = Info("fun", params=[("x", "pos", False)])
+            else:
+                self.emit(0, "%s = %d" % (name, self.rng.randrange(1, 9)))
+                sc.names[name] = Info("int")
+        elif self.chance(0.3):
             self.emit(0, '"""%s %s"""' % (self.pick(INTS), self.pick(self.funs)))
         n = self.rng.randrange(5, 10) if not is_main else self.rng.randrange(6, 12)
         for k in range(n):
             r = self.rng.random()
             self.noise(0)
-            if avail and (r < 0.18 or (is_main and k == 0)):
+            if avail and r < 0.08:
+                # the optional-import idiom: the name is bound by the import and by the fallback assignment
+                m = self.pick(avail)
+                ints = [n0 for n0, i0 in sorted(self.exports[m].items()) if i0.typ == "int" and n0 not in sc.names
+                        and n0 not in MODS]
+                if ints:
+                    v = self.pick(ints)
+                    self.emit(0, "try:")
+                    self.emit(1, "from %s import %s" % (m, v))
+                    self.emit(0, "except ImportError:")
+                    self.emit(1, "%s = %d" % (v, self.rng.randrange(0, 3)))
+                    sc.names[v] = Info("int")
+            elif avail and (r < 0.18 or (is_main and k == 0)):
                 self.gen_import(sc, 0, avail)
             elif r < 0.40:
                 f = self.pick(self.funs)
@@ -624,6 +663,11 @@ class Gen:
                 self.compound(sc, 0)
         for _ in range(self.rng.randrange(1, 4) if is_main else self.rng.randrange(0, 2)):
             self.print_stmt(sc, 0)
+        # a module imported under its own name that defines a homonym on its first line: make sure it is used
+        for mn, mi in sorted(sc.names.items()):
+            if mi.typ == "mod" and mn == mi.target and mn in self.exports.get(mn, {}):
+                hi = self.exports[mn][mn]
+                self.emit(0, "print(%s.%s%s)" % (mn, mn, "(%s)" % self.atom(sc) if hi.typ == "fun" else ""))
         if "builtin" in self.features:
             self.emit(0, "print(len([%s]), abs(%s))" % (self.atom(sc), self.atom(sc)))
         self.exports[name] = {n: i for n, i in sc.names.items() if i.typ in ("int", "fun", "cls")}
